@@ -674,7 +674,23 @@ def h_concurrent(eng, case):
                 return await val(name, sig)
             except Exception as e:
                 return ('exc', exc_sig(e))
-        res = await asyncio.gather(*[one(p) for p in packets])
+        if case.get('cancel'):
+            # one of the callers gives up (task cancelled, a wait_for around the validation expires) while the
+            # certificate fetches are in flight: that is this caller's business only
+            tasks = [asyncio.ensure_future(one(p)) for p in packets]
+            await asyncio.sleep(0)
+            await asyncio.sleep(0)
+            gone = eng.choice(N, 'cancelled')
+            tasks[gone].cancel()
+            res = []
+            for i, t in enumerate(tasks):
+                try:
+                    res.append(await t)
+                except asyncio.CancelledError:
+                    res.append(('exc', 'CancelledError'))
+            res[gone] = ('cancelled',)                 # whatever the caller that gave up sees is not a verdict
+        else:
+            res = await asyncio.gather(*[one(p) for p in packets])
         repo.cancel()
         app.shutdown()
         try:
@@ -687,8 +703,10 @@ def h_concurrent(eng, case):
         eng.fail('validation-terminates', 'deadlock')
         return
     for i, got in enumerate(r):
+        if got == ('cancelled',):
+            continue
         if isinstance(got, tuple):
-            eng.fail('validator-returns-a-verdict', got[1])
+            eng.fail('validator-returns-a-verdict', got[1], {'packet': i, 'another_validation_was_cancelled': bool(case.get('cancel'))})
             continue
         eng.check(bool(got) == bool(expect[i]), 'verdict-independent-of-history',
                   {'packet': i, 'of': N, 'got': repr(got), 'expected': bool(expect[i])},
@@ -918,6 +936,7 @@ def cases(tier, seed):
     for D, kinds, N in ((2, ['rsa', 'ecdsa'], 20), (3, ['hmac', 'ecdsa', 'rsa'], 12)) if tier == 'quick' else \
             ((1, ['ecdsa'], 40), (2, ['rsa', 'ecdsa'], 40), (3, ['hmac', 'ecdsa', 'rsa'], 24), (4, ['rsa', 'ecdsa', 'hmac', 'ecdsa'], 16)):
         cs.append(('concurrent', {'depth': D, 'kinds': kinds, 'packets': N}, {'weight': 30}))
+        cs.append(('concurrent', {'depth': D, 'kinds': kinds, 'packets': 3, 'cancel': True}, {'weight': 10}))
     for sch in CTOR_SCHEMAS:
         for kind in ('rsa', 'hmac'):
             cs.append(('ctor_roots', {'schema': sch, 'anchor_kind': kind}))
